@@ -171,7 +171,7 @@ func (r *Report) MergeExplore(part string, s Stats) {
 		r.InfraErrors = append(r.InfraErrors, part+": "+e)
 	}
 	r.Parts[part] = map[string]any{"executions": s.Executions, "choice_points": s.Points, "max_depth": s.MaxDepth,
-		"deviation_bound": s.BoundDone, "work_units": s.Units, "exhaustive": s.Exhaustive, "violations": len(s.Violations)}
+		"deviation_bound": s.BoundDone, "work_units": s.Units, "exhaustive": s.Exhaustive, "violations": len(s.Violations), "executions_rerun_after_replay_divergence": s.DivergenceRetries}
 }
 
 // MergeBFS folds BFS statistics into the report under a part name.
@@ -202,7 +202,20 @@ func (r *Report) MergeBFS(part string, s BFSStats) {
 }
 
 // Write stores the report at $VERIF_OUT (or prints it when unset).
+// SetPart stores one entry of Parts.
+func (r *Report) SetPart(name string, v any) {
+	r.mu.Lock()
+	r.Parts[name] = v
+	r.mu.Unlock()
+}
+
+// WriteHooks run at the start of Write (engines layered on mc add their own counters to Parts).
+var WriteHooks []func(r *Report)
+
 func (r *Report) Write() error {
+	for _, h := range WriteHooks {
+		h(r)
+	}
 	r.mu.Lock()
 	defer r.mu.Unlock()
 	r.WallS = time.Since(r.start).Seconds()
